@@ -347,7 +347,7 @@ class Ctx:
         """REL: a fence(Release|AcqRel|SeqCst) earlier in the same block sequence dominating pt;
            ACQ: a fence(Acquire|AcqRel|SeqCst) on every path after pt before return"""
         fence = Call(r"std::sync::atomic::fence|core::sync::atomic::fence", transitive=False,
-                     where=lambda g, p, t: satisfies(ordering_of(g, t["args"][0]) or "Relaxed", floor if floor != "ACQREL" else "ACQREL"))
+                     where=lambda g, p, t: satisfies(ordering_of(g, t["args"][0]) or "Relaxed", floor))
         fs = self.an.sites(f, fence, "must")
         if not fs: return False
         if floor == "REL":
@@ -356,12 +356,22 @@ class Ctx:
         if floor == "ACQ":
             reach = self.an.reach(f, self.an.after(f, pt), blocked=fs)
             return not any(r in reach for r in f.ret_points())
+        if floor == "SEQ":
+            # a store-buffering (Dekker) pair: a fence(SeqCst) separates the access from what follows / precedes it in the pattern -
+            # after a store (on every path to the return), before a load (on every path from the entry); an RMW needs either
+            t = f.node(pt); m = (callee_name(t) or "").rsplit("::", 1)[-1]
+            after = not any(r in self.an.reach(f, self.an.after(f, pt), blocked=fs) for r in f.ret_points())
+            before = pt not in self.an.reach(f, [Point(0, 0)], blocked=fs)
+            if m == "store": return after
+            if m == "load": return before
+            return after or before
         return False
 
 def satisfies(o, floor):
     if floor == "REL": return o in ("Release", "AcqRel", "SeqCst")
     if floor == "ACQ": return o in ("Acquire", "AcqRel", "SeqCst")
     if floor == "ACQREL": return o in ("AcqRel", "SeqCst")
+    if floor == "SEQ": return o == "SeqCst"
     if floor == "ANY": return True
     raise ValueError(floor)
 
